@@ -314,8 +314,9 @@ class Scenario:
         return s.run_until(lambda: self.node.is_open(), timeout, "wait-open")
 
     # -- traffic ---------------------------------------------------------------------
-    def inject(self, data, chunks=None, settle=True):
-        """Deliver bytes to the node's socket. chunks: list of chunk sizes (the remainder is delivered last)."""
+    def inject(self, data, chunks=None, settle=True, gap=None):
+        """Deliver bytes to the node's socket. chunks: list of chunk sizes (the remainder is delivered last); gap: virtual
+        seconds of silence after each segment has been read (a slow or stalled sender)."""
         s = self.sched
         data = bytes(data)
         if not chunks:
@@ -337,6 +338,8 @@ class Scenario:
             if settle and i < len(data):
                 # let the node read this segment before the next one arrives
                 s.run_until(lambda: not self.node_sock.rx, 2.0, "segment-consumed")
+                if gap:
+                    s.run_until(lambda: False, gap, "segment-gap")
 
     def _pull(self):
         if self.peer_sock is not None and self.peer_sock.rx:
